@@ -51,6 +51,11 @@ end
       if st.w.vq.headD true then .norm ((st.setW { st.w with vq := st.w.vq.tail }).setVar x (ofVal v))
       else .exc (st.setW { st.w with vq := st.w.vq.tail }) .invalid := by
   cases v <;> rfl
+@[simp] theorem propOutcome_none (w : FW) (s : Fail.St) : propOutcome w (s, Option.none) = .ret (w.setS s) .none := rfl
+@[simp] theorem propOutcome_some (w : FW) (s : Fail.St) (e : Err) : propOutcome w (s, some e) = .exc (w.setS s) e := rfl
+theorem propCall_setattr (w : FW) (k : Nat) (pv : PV) :
+    propCall "__setattr__" [PV.name k, pv] [] w = propOutcome w (setProp w k) := by
+  simp [propCall]
 @[simp] theorem excErr_attr : excErr .attributeError = some Err.attrError := rfl
 @[simp] theorem excErr_type : excErr .typeError = some Err.typeError := rfl
 @[simp] theorem getFlag_creating (w : FW) : w.getFlag .creating = w.creating := rfl
